@@ -84,8 +84,9 @@ def run(ctx):
     # ---- (1) equality and hash through absolutePath()
     eq = ctx.fn1("Oomd::CgroupPath::operator==")
     ctx.anchor(eq, "other")
-    t = [ret_text(eq, r) for r in returns(eq)]
-    ctx.check(t in (["(this->absolutePath() == other.absolutePath())"], ["(other.absolutePath() == this->absolutePath())"]), "equality-by-absolute-path", "expression-tree", eq.loc(),
+    # absolutePath() is a plain getter of absolute_cache_ (precondition above): both spellings are the same comparison
+    t = [ret_text(eq, r).replace(".absolutePath()", ".absolute_cache_").replace("this->absolutePath()", "this->absolute_cache_") for r in returns(eq)]
+    ctx.check(t in (["(this->absolute_cache_ == other.absolute_cache_)"], ["(other.absolute_cache_ == this->absolute_cache_)"]), "equality-by-absolute-path", "expression-tree", eq.loc(),
               "operator== compares absolute paths", "operator== is " + str(t))
     ne = ctx.fn1("Oomd::CgroupPath::operator!=")
     t = [ret_text(ne, r) for r in returns(ne)]
@@ -195,7 +196,9 @@ def run(ctx):
             elif nm in ("emplace_back", "push_back"):
                 a = Xc(f.nodes[i]["args"][0]) if f.nodes[i].get("args") else ""
                 a = re.sub(r"^std::move\((.*)\)$", r"\1", a)
-                ok_ = re.match(r"^elem\(Oomd::Util::split\(param:\w+, 47\)\)$", a) is not None
+                # an element of the split result, whichever way it is addressed (range-for, iterator, index)
+                ok_ = re.match(r"^elem\(Oomd::Util::split\(param:\w+, 47\)\)$", a) is not None or \
+                    re.match(r"^Oomd::Util::split\(param:\w+, 47\)(\[[^\[\]]*\]|\.at\([^()]*\))$", a) is not None
             else:
                 ok_ = False
             ctx.check(ok_, "components-come-from-split:%s@%s:%d" % (f.name, nm, n_.get("line", 0)), "who-may-write + provenance", f.loc(i),
@@ -244,7 +247,7 @@ def run(ctx):
         pref = any(k in ("(0 == path.find(this->cgroup_fs_, 0))", "(path.find(this->cgroup_fs_, 0) == 0)") and p is True for k, p in g)
         same = any(k in ("(path.size() == this->cgroup_fs_.size())", "(this->cgroup_fs_.size() == path.size())") and p is True for k, p in g)
         slash = any(re.match(r"^\((47 == path\[this->cgroup_fs_\.size\(\)\]|path\[this->cgroup_fs_\.size\(\)\] == 47)\)$", k) and p is True for k, p in g)
-        a = [rw.text(x) for x in rw.nodes[i]["args"]]
+        a = [hoist_text(rw, x).replace("std::basic_string<char>::npos", "std::string::npos") for x in rw.nodes[i]["args"]]
         ctx.check(pref and (same or slash), "resolve:only-under-the-fs-root", "guarded_by", rw.loc(i),
                   "a result is emitted only for paths that start with the fs root and equal it or continue with '/'",
                   "a glob result is accepted without the root-prefix / component-boundary test (names sharing a prefix with the root would match)", witness_path(rw, fl, i))
